@@ -81,6 +81,8 @@ def is_fresh(value: ast.AST) -> bool:
 	"""the expression builds a new container: x.copy(), {**a, **b}, dict(x), list(x), [*a, *b], comprehension, literal"""
 	if isinstance(value, (ast.Dict, ast.List, ast.Set, ast.DictComp, ast.ListComp, ast.SetComp)):
 		return True
+	if isinstance(value, ast.BinOp) and isinstance(value.op, (ast.BitOr, ast.Add)):
+		return True  # a | b (dict union) and a + b build a new container
 	if isinstance(value, ast.Call):
 		fn = value.func
 		if isinstance(fn, ast.Attribute) and fn.attr in ('copy', 'deepcopy') :
